@@ -754,3 +754,11 @@ pub fn replay_isolated(id: &str, path: &str) -> i32 {
         }
     }
 }
+
+/// Debug aid: prints the generated case of run `index` (explicit form, as in replay files).
+pub fn dump_case<K: Check>(k: &K, tier: Tier, index: u64) -> i32 {
+    let (s, ss) = run_seed(base_seed(), k.num(), index);
+    let case = k.gen(s, ss, tier);
+    println!("{}", serde_json::to_string_pretty(&k.to_j(&case)).unwrap());
+    0
+}
